@@ -87,3 +87,73 @@ Example C10_ex_keys_ok :
                     | None => false end)
           [[2570; 4588; 29]; [29; 23]; [4588]; [4588; 23]; [23; 4588; 29; 24; 25]; [14906; 25497; 29]] = true.
 Proof. vm_compute. reflexivity. Qed.
+
+(* ======================================================================================================
+   C10 over the regenerated parrot table (Gen/Parrots.v) with NO premise on a model's output
+   (Model/ParrotNeg.v, Proofs/ParrotNegP.v / ParrotNegS.v / ParrotNegC.v on top of Model/PresetOk.v and the composition
+   files; reading guide at the end of Props/C02.v and Props/C12.v).
+     ParrotNeg.neg_static sp     decidable from the spec: at most one supported_groups / key_share / supported_versions /
+                                 compress_certificate extension, version bounds derivable, and - for ALL 16 x 16 GREASE (group,
+                                 version) values - the part of spec_ok that is not [synced] holds with the keys the repaired
+                                 ApplyPreset retains (ParrotNeg.static_shape, proved for every crypto instance: C18_parrots)
+     ParrotNeg.hybrid_static sp  every hybrid group in supported_groups has its key share (else: finding hrr-hybrid)
+     ParrotNegC.psk_quiet sp     without a session the pre_shared_key extension serialises nothing (else: finding psk-hrr)
+   The exception classes are THEOREMS over the table: a new parrot that falls into one changes a statement here.
+   ====================================================================================================== *)
+From UV Require Model.Ext Model.Marshal Model.ChMarshal Model.WriteToUConn Model.Preset Model.ParrotSpec Model.Shuffle.
+From UV Require Model.PresetOk Model.ParrotNeg Gen.Parrots.
+From UV Require Proofs.ComposeW Proofs.PresetOkC Proofs.ParrotNegS Proofs.ParrotNegC.
+
+(* every shipped parrot satisfies the static condition ... *)
+Theorem C10_parrots_static : forallb (fun p => ParrotNeg.neg_static (Preset.p_spec p)) Parrots.all = true.
+Proof. exact ParrotNegS.parrots_neg_static. Qed.
+
+(* ... class hrr-hybrid (supported_groups lists X25519MLKEM768 / Kyber without sending its share): NO shipped parrot
+   (the finding hrr-hybrid/* concerns randomized specs only) ... *)
+Theorem C10_parrots_hrr_hybrid_exceptions : map Preset.p_name ParrotNegS.hrr_hybrid_exceptions = [].
+Proof. exact ParrotNegS.parrots_hrr_hybrid_exceptions. Qed.
+
+(* ... class psk-hrr (finding psk-hrr): reachable only when a session is offered; exactly the four parrots that carry a
+   pre_shared_key extension can offer one. Without a session their extension is omitted (OmitEmptyPsk) for all 38: *)
+Theorem C10_parrots_psk_hrr_class :
+  map Preset.p_name ParrotNegS.psk_hrr_class
+  = map Preset.p_name [Parrots.p_Chrome_100_PSK; Parrots.p_Chrome_112_PSK_Shuf; Parrots.p_Chrome_114_Padding_PSK_Shuf; Parrots.p_Chrome_115_PQ_PSK].
+Proof. exact ParrotNegS.parrots_psk_hrr_class. Qed.
+Theorem C10_parrots_psk_quiet : forallb (fun p => ParrotNegC.psk_quiet (Preset.p_spec p)) Parrots.all = true.
+Proof. exact ParrotNegC.parrots_psk_quiet. Qed.
+
+(* THE PROPERTY for the shipped parrots, no session offered: every table entry, every rearrangement the shuffle can produce,
+   every Config with an SNI name of at most 255 bytes and OmitEmptyPsk, every randomness for which ApplyPreset returns, every
+   bufio behaviour: on EVERY compliant server flight the client completes, on exactly the server's choices.
+   v = the view UConn.ApplyConfig builds (WriteToUConn.view_of), ks = the shape of the keys ApplyPreset retains. *)
+Theorem C10_parrots : forall p swaps exts', In p Parrots.all ->
+  Shuffle.shuffle ParrotSpec.fixedb swaps (Preset.sp_exts (Preset.p_spec p)) = Ok exts' ->
+  forall c fr h es, PresetOkC.parrot_class c ->
+  Preset.apply_preset (PresetOk.with_exts (Preset.p_spec p) exts') c fr = Ok (h, es) ->
+  forall mn mx env bbs padto raw s',
+  Preset.set_tls_vers (PresetOk.with_exts (Preset.p_spec p) exts') = Ok (mn, mx) ->
+  WriteToUConn.we_cache_session env = false ->
+  ChMarshal.marshal_hello bbs padto h es = Ok raw ->
+  WriteToUConn.apply_config env (ChMarshal.marshal_hello bbs padto h es) (ComposeW.preset_state h mn mx) es = Ok s' ->
+  let ks := ParrotNeg.static_shape (ParrotNeg.lastS ParrotNeg.s_shares (Preset.sp_exts (Preset.p_spec p)) []) in
+  let v := WriteToUConn.view_of (WriteToUConn.finish false es s') es (sh_ecdhe ks) (sh_mlkem ks) 0 in
+  exists w, WriteToUConn.wire_of raw = Some w /\
+    forall fl, compliant env_fixed mn w fl = true ->
+    exists st, client_run10 true env_fixed v ks fl = Complete st
+      /\ cs_suite st = h_suite (f_sh fl)
+      /\ ((cs_vers st = V13 /\ cs_group st = h_share (f_sh fl) /\ cs_alpn st = f_ee_alpn fl)
+          \/ (cs_vers st = h_vers (f_sh fl) /\ cs_vers st <> V13 /\ cs_alpn st = h_alpn (f_sh fl))).
+Proof. exact ParrotNegC.parrot_completes. Qed.
+Print Assumptions C10_parrots.
+
+(* Firefox_120 (key shares X25519 and P-256) through the whole chain with concrete randomness: a compliant TLS 1.3 server
+   selecting the SECOND share (P-256) - the case that aborted before the C18 repair - and one selecting the first: compliant,
+   c10_cond holds, the client completes on that group; retained keys Ecdhe = X25519, ExtraEcdhe = [P-256] *)
+Example C10_ex_firefox120_second_share :
+  ParrotNegC.ex_firefox120 23 = true /\ ParrotNegC.ex_firefox120 29 = true
+  /\ ParrotNeg.static_shape (ParrotNeg.lastS ParrotNeg.s_shares (Preset.sp_exts (Preset.p_spec Parrots.p_Firefox_120)) []) = mkShape 29 [23] false 0.
+Proof. vm_compute. repeat split; reflexivity. Qed.
+
+(* imported last, for the driver's closure scan only (lib/vcheck.py follows "Require Import" lines); nothing follows *)
+From UV Require Import Model.WriteToUConn Proofs.ComposeP Proofs.ComposeW.
+From UV Require Import Model.PresetOk Model.ParrotNeg Proofs.PresetOkP Proofs.PresetOkS Proofs.PresetOkC Proofs.ParrotNegP Proofs.ParrotNegS Proofs.ParrotNegC.
